@@ -19,7 +19,7 @@ of these functions that alters behaviour breaks an obligation here without any t
 (written by tools/mkrprops.py)
 -/
 namespace Arimaa
-open Gen GameState Arimaa.Gen.Rs Arimaa.Rt Arimaa.Gen.Bridge
+open Gen GameState Arimaa.Gen.Rs Arimaa.Rt Arimaa.Gen.Bridge Spec
 
 theorem C12_value_of_ok {α : Type} {x : Res α} {p : Bool} {v w : α} (h : x = Res.guard p v) (hx : x = .ok w) :
     p = false ∧ w = v := by
@@ -38,5 +38,24 @@ theorem C12_code_agrees :
    (by simp only [bridge_GameState_must_complete_push_actions]; exact RsAgree.must_complete_push_actions_eq),
    (by simp only [bridge_GameState_take_action]; exact RsAgree.take_action_eq)⟩
 
+
+theorem C12_code_rule_only (s : GameState) (l : List Action) (hl : GameState_valid_actions_no_rep s = .ok l) :
+    l = s.validActionsNoRep := by
+  simp only [bridge_GameState_valid_actions_no_rep] at hl
+  exact (C12_value_of_ok (RsAgree.valid_actions_no_rep_direct s) hl).2
+
+/-- **C12 for the code as it is now**: after a step from the rule-only list of the regenerated code, applied by
+the regenerated `take_action` before the last step of the turn, the reported status is the one the rules
+prescribe (`Spec.nextPending`) -/
+theorem C12_code_status_after_step (s s' : GameState) (pp : PlayPhase) (h : PlayInv s pp) (l : List Action)
+    (hl : GameState_valid_actions_no_rep s = .ok l) (i : Nat) (d : Dir) (ha : Action.move i d ∈ l)
+    (hlt : pp.step < 3) (ht : GameState_take_action s (.move i d) = .ok s') :
+    ∃ pp', s'.phase = .play pp' ∧
+      absPend pp'.pps = nextPending (absBoard s.board) s.p1Turn (absPend pp.pps) i (dirSpec d) := by
+  have h1 := C12_code_rule_only s l hl
+  simp only [bridge_GameState_take_action] at ht
+  have h2 := (C12_value_of_ok (RsAgree.take_action_eq s _) ht).2
+  subst h1 h2
+  exact C12_status_after_step s pp h i d ha hlt
 
 end Arimaa
